@@ -558,6 +558,13 @@ let ssplit (rest : string) : string =
       "OK " ^ Stdlib.String.concat "," (Stdlib.List.map str_n sizes)
   | _ -> failwith "ssplit: expected mfb lf_single lf lr n"
 
+(* ---------- C05: the specification-derived reference decoder ---------- *)
+let codec_spec (rest : string) : string =
+  let bs = bytes_of_hex (Stdlib.String.trim rest) in
+  match Spec.spec_valid (nat_of_int 10) bs with
+  | Some v -> let b = Buffer.create 64 in Buffer.add_string b "OK "; print_value b v; Buffer.contents b
+  | None -> "INVALID"
+
 let dispatch (line : string) : string =
   match Stdlib.String.index_opt line ' ' with
   | None -> failwith "no model tag"
@@ -581,6 +588,8 @@ let dispatch (line : string) : string =
        | "ldf" -> frame_ldf rest
        | "enc" -> codec_enc rest
        | "dec" -> codec_dec rest
+       | "spec" -> codec_spec rest
+       | "specv" -> codec_spec rest
        | _ -> failwith ("unknown model " ^ tag))
 
 let () =
